@@ -240,7 +240,7 @@ def work(t):
     nq = 0
     for li, (xa, xb) in enumerate(zip(outsD[d], ref)):
       sub = Prover(timeout_s=15, first_s=3.0)
-      r_ = sub.equal(f'leaf {li}', toobj(xa).reshape(-1), toobj(xb).reshape(-1), rng)
+      r_ = sub.equal(f'leaf {li}', toobj(xa).reshape(-1), toobj(xb).reshape(-1), rng, force=True)
       nq += sub.queries
       P.queries += sub.queries
       P.solver_s += sub.solver_s
